@@ -349,6 +349,9 @@ def run(ctx):
     lines, expect, metas = [], [], []
     raw = []
     for src, ty, v, tail in gen_cases(ctx):
+        if len(ctx.violations) >= 20:
+            ctx.notes.append('stopped early: 20 failing inputs recorded')
+            break
         full = bc.complete(ty, v)
         if not (bc.in_domain(ty, full) and bc.constructible(ty)):
             ctx.count(f'{src}:skipped-off-domain')
@@ -367,7 +370,7 @@ def run(ctx):
         except Exception as e:  # noqa
             bad = f'reference comparison raised {err_name(e)}: {e!s:.60}'
         if bad:
-            sty, sv = bc.shrink(ty, v, fails_layout(B, tail))
+            sty, sv = bc.shrink(ty, bc.complete(ty, v), fails_layout(B, tail)) if len(ctx.violations) < 3 else (ty, v)
             try:
                 spobj = B.from_val(sty, sv, typed=True)
                 sact = bc.to_val(sty, spobj) if kind(sty) in ('record', 'optrec', 'arr') else sv
@@ -393,7 +396,7 @@ def run(ctx):
         if len(ref) <= 300:
             raw.append((ty, ref))
     # ---- raw decoder inputs
-    n_raw = 3000 if quick else 50000
+    n_raw = (3000 if quick else 50000) if len(ctx.violations) < 20 and raw else 0
     for _ in range(n_raw):
         ty, ref = rng.choice(raw)
         data = mutate(rng, ref)
@@ -416,7 +419,8 @@ def run(ctx):
                     ctx.disagree(f'{what}: model `{bc.short(a, 120)}` vs implementation `{bc.short(g, 120)}`', rep)
     else:
         ctx.notes.append('model driver unavailable: oracle only')
-    run_messages(ctx, B, 150 if quick else 2500)
+    if len(ctx.violations) < 20:
+        run_messages(ctx, B, 150 if quick else 2500)
 
 
 def run_messages(ctx, B, n_cases):
@@ -443,10 +447,10 @@ def run_messages(ctx, B, n_cases):
                 setattr(msg, name, rec.values[name])
             actual = bc.to_val(body, msg.record)
             ref = bytes([ind]) + ref_layout(body, actual)
-            n, b = msg.to_bytes()
+            n, b = bc.guarded_call(msg.to_bytes)
             if b != ref or n != len(ref):
                 ctx.violation(f'message bytes differ from [message-type byte] + documented body layout: {b[:24].hex()} vs {ref[:24].hex()}', rep)
-            m, dmsg = base.from_bytes(ref + tail)
+            m, dmsg = bc.guarded_call(lambda: base.from_bytes(ref + tail))
             if type(dmsg) is not classes[k] or m != len(ref) or bc.reads_differ(body, msg.record, dmsg.record):
                 ctx.violation('the documented message layout does not decode to the message', rep)
             lines.append(f'bin.msg.layout {ind} {sx(body[1:])} {sx(actual)}')
